@@ -73,6 +73,8 @@ func ruleC20(c *Check) {
 	c.panicInventory(fs, r)
 	c.mutateWhileIterating()
 	c.priceNonEmpty(fs)
+	// the respond handler panics if the refund of a request fee fails: fees are valid coins only because the price routine clamps to one unit
+	c.priceSkeleton("C20.3")
 	// justification of the respond function's panics
 	u := c.feeUnits("C20.3")
 	if u.complete() {
